@@ -68,7 +68,8 @@ def _apply_edits(factors, edits):
 
 @st.composite
 def _edits(draw, n_modes, rank, kinds=("zero", "zmean", "dup", "neg"), max_edits=2, p_none=0.3):
-    if draw(st.integers(0, 9)) < int(p_none * 10):
+    # Hypothesis favours the minimal value of a draw: make "no edit" the non-minimal outcome
+    if draw(st.integers(0, 9)) >= 10 - int(round(p_none * 10)):
         return []
     out = []
     for _ in range(draw(st.integers(1, max_edits))):
@@ -358,7 +359,7 @@ def _tucker_case(draw, min_order=2, max_order=4):
     ranks = [draw(st.integers(1, 3)) for _ in shape]
     tk = draw(gen.tucker_factors(shape, ranks))
     edits = []
-    if draw(st.integers(0, 9)) >= 3:
+    if draw(st.integers(0, 9)) < 7:
         for _ in range(draw(st.integers(1, 2))):
             j = draw(st.integers(0, len(shape) - 1))
             r = draw(st.integers(0, ranks[j] - 1))
@@ -719,11 +720,17 @@ def _o_pad(part):
             # zero padding: the old core sits in the leading block, everything else is exactly zero
             for i, (o, c) in enumerate(zip(out, cores)):
                 check(o.ndim == c.ndim and all(a >= b for a, b in zip(o.shape, c.shape)), "pad_tt_rank/structure", "shape shrank")
-                idx = (slice(0, c.shape[0]),) + (slice(None),) * (c.ndim - 2) + (slice(0, c.shape[-1]),)
-                close(o[idx], c, "pad_tt_rank/leading-block", rel=0, scale=1.0)
-                rest = np.array(o, copy=True)
-                rest[idx] = 0
-                check(not rest.any(), "pad_tt_rank/zero-padding", lambda: f"core {i}: padding is not zero")
+                # "padded with 0s": the old core is a contiguous block of the new one and everything else is exactly zero
+                # (the block position is not advertised, so any offset is accepted)
+                found = False
+                for a in range(o.shape[0] - c.shape[0] + 1):
+                    for b in range(o.shape[-1] - c.shape[-1] + 1):
+                        idx = (slice(a, a + c.shape[0]),) + (slice(None),) * (c.ndim - 2) + (slice(b, b + c.shape[-1]),)
+                        if np.array_equal(o[idx], c):
+                            rest = np.array(o, copy=True)
+                            rest[idx] = 0
+                            found = found or not rest.any()
+                check(found, "pad_tt_rank/zero-embedding", lambda: f"core {i}: padded core is not the old core surrounded by zeros")
         return {"nontrivial": max(case["ranks"]) >= 2 or len(cores) >= 3,
                 "labels": [f"kind={kind}", f"order={len(cores)}", f"n_padding={n}", f"pad_boundaries={pb}", f"wrapper={case['wrapper']}"]}
     return oracle
